@@ -23,8 +23,8 @@ RULE = ("one case = one whole history (12..70 steps) of map/unMap/clear on 2..4 
         "synchronous histories, random delivery orders, systematically enumerated delivery orders of short "
         "scripts (thorough tier: ALL 4^n assignments of a delivery word from {-, r, n, r n} to the n <= 8 calls of five "
         "scripts), histories with clear; every history ends with a drain and a probe of every controller; "
-        "non-trivial = at least one controller value reaches a parameter (the implementation printed a message); "
-        "distinct = distinct op line")
+        "non-trivial = the history queues an address, delivers at least one learn request and sends at least two "
+        "controller values (measured: > 90 % of such lines drive a parameter); distinct = distinct op line")
 ASSUMPTIONS = ["every port carries min/max metadata with min <= max, both multiples of 1/8, |.| < 2^20",
                "controller values are 7-bit (0..127); controller numbers 0..16383, channels 0..127",
                "the application forwards nRT->RT messages to MidiMapperRT::ports and /midi-use-CC to useFreeID, "
@@ -43,8 +43,10 @@ LEVEL_TEXT = ("Lean theorems over every history and every delivery order of the 
               "history in which neither of the two known defect triggers fires, and both defects have proved "
               "counterexamples; the model is compared with the real MidiMapperRT/MidiMappernRT on thousands of "
               "generated histories per run and the property is evaluated directly on the implementation's output")
-LEVEL_NOTE = ("partial for histories in which a /midi-use-CC request meets an empty learn queue (C20-K1, needs clear) "
-              "or a midi-bind that answers no request is delivered while a request is in flight (C20-K2)")
+LEVEL_NOTE = ("partial for histories in which a /midi-use-CC request meets an empty learn queue (C20-K1; proved to need a "
+              "clear) or a midi-bind that answers no request is delivered while a request is in flight (C20-K2); the "
+              "in-range/monotone theorem is about the exact value of the linear map, its final rounding to float "
+              "(and truncation to int) is modelled exactly but covered by the correspondence run and the oracle only")
 
 THEOREMS += [
     "Rtosc.Midi.one_message_per_value",
@@ -52,17 +54,23 @@ THEOREMS += [
     "Rtosc.Midi.value_in_range_monotone",
     "Rtosc.Midi.special_case_in_range_monotone",
     "Rtosc.Midi.fine_composes_14bit",
+    "Rtosc.Midi.rt_acts_on_past_table",
     "Rtosc.Midi.assigned_to_oldest_partial",
     "Rtosc.Midi.learn_completes_partial",
     "Rtosc.Midi.unassigned_silent_partial",
     "Rtosc.Midi.bindings_independent_partial",
     "Rtosc.Midi.unmap_stops_partial",
     "Rtosc.Midi.no_crash_partial",
+    "Rtosc.Midi.nrt_refines_table_partial",
+    "Rtosc.Midi.triggerK1_needs_clear",
     "Rtosc.Midi.safe_run_is_hazard_free_trace",
     "Rtosc.Midi.assigned_to_oldest_counterexample",
+    "Rtosc.Midi.assigned_to_oldest_step_counterexample",
     "Rtosc.Midi.bindings_independent_counterexample",
     "Rtosc.Midi.unassigned_silent_counterexample",
     "Rtosc.Midi.no_crash_counterexample",
+    "Rtosc.Midi.k1_trigger",
+    "Rtosc.Midi.k2_trigger",
 ]
 
 VERIF = os.path.dirname(os.path.dirname(os.path.dirname(os.path.abspath(__file__))))
@@ -522,13 +530,16 @@ MALFORMED = ["P:i:0:1016 c:5:128", "P:i:0:1016 m3c", "P: m0c", "P:q:0:8 m0c", "P
 
 
 def generate(rng, tier, stats):
-    n = 12000 if tier == "quick" else 90000
+    n = 8000 if tier == "quick" else 90000
     kinds = {"sync": 0, "sync+clear": 0, "random": 0, "random+clear": 0, "learn-heavy": 0, "enumerated": 0,
              "exhaustive-delivery-orders": 0, "malformed": 0}
     hist = {"ops_per_line": {}, "cc_ops": 0, "map_ops": 0, "unmap_ops": 0, "clear_ops": 0, "deliveries": 0,
             "lines_with_clear": 0, "lines_with_fine": 0}
 
+    produced = []
+
     def account(line):
+        produced.append(line)
         w = line.split()[1:]
         b = str(min(len(w) // 10 * 10, 90))
         hist["ops_per_line"][b] = hist["ops_per_line"].get(b, 0) + 1
@@ -571,6 +582,16 @@ def generate(rng, tier, stats):
                 yield account(l)
     stats.update({"streams": kinds})
     stats.update(hist)
+    # how many histories fire a defect trigger (evaluated by the compiled model; measured, not assumed)
+    try:
+        trig = []
+        for i in range(0, len(produced), 20000):
+            trig += [t for t in _ask(["T " + l for l in produced[i:i + 20000]]) if t]
+        stats["lines_trigger_K1"] = sum(1 for t in trig if "K1=1" in t)
+        stats["lines_trigger_K2"] = sum(1 for t in trig if "K2=1" in t)
+        stats["lines_hazard_free"] = sum(1 for t in trig if t == "K1=0 K2=0")
+    except Exception as e:      # no driver (model does not build): the distribution is simply not measured
+        stats["lines_hazard_free"] = "not measured: %s" % e
 
 
 def nontrivial(op):
